@@ -379,6 +379,36 @@ def charname_eof(ctx, lexpr):
     except sim.Limit:
         r.violation(fn.path, "inexact", "path limit while discovering the accepted character names", fn.loc())
         return
+    if not names:
+        # the reader may look names up in a table instead of matching on them: every byte string found in a static
+        # of the parse module is a candidate, kept if the reader accepts it as a character name
+        cands = set()
+
+        def leaves(v):
+            if isinstance(v, sim.Bytes):
+                yield bytes(v.b)
+            elif isinstance(v, Tup):
+                for x in v.fields:
+                    yield from leaves(x)
+        S0 = sim.Sim([lexpr])
+        for sname, sv in S0.statics.items():
+            if sname.startswith("parse::") and isinstance(sv, Tup):
+                cands |= {b for b in leaves(sv) if 2 <= len(b) <= 16 and all(0x21 <= c < 0x7F for c in b)}
+        for cand in sorted(cands):
+            try:
+                S, cell, paths = run(list(cand) + [0x20, None], False)
+            except sim.Limit:
+                continue
+            outs = set()
+            for p in paths:
+                if p.end == "return" and isinstance(p.ret, Adt) and p.ret.adt.endswith("Result"):
+                    outs.add("ok" if p.ret.variant == 0 and isinstance(S._deref(p.ret.fields[0], p), int) else "err")
+                else:
+                    outs.add("?")
+            if outs == {"ok"}:
+                names.add(cand)
+        if names:
+            r.note("names found through the parse module's static tables (the reader looks them up)")
     r.floor("character-names", len(names))
     r.note("character names accepted by the reader: %s" % ", ".join(sorted(n.decode("latin1") for n in names)))
     n = 0
